@@ -20,6 +20,11 @@ VERIF = os.path.dirname(os.path.dirname(os.path.abspath(__file__)))
 EVIDENCE_DIR = os.path.join(VERIF, "evidence")
 REPLAY_DIR = os.path.join(VERIF, "replays")
 FINDINGS_FILE = os.path.join(VERIF, "known_findings.json")
+if os.environ.get("VERIF_REPO_SRC"):
+    # mutant / scratch-tree runs never touch the committed evidence or replay directories
+    _scr = os.environ.get("VERIF_SCRATCH_OUT", "/tmp/verif-scratch-out")
+    EVIDENCE_DIR = os.path.join(_scr, "evidence")
+    REPLAY_DIR = os.path.join(_scr, "replays")
 
 MAX_REPLAY_FILES_PER_SUBCHECK = 3
 MAX_REPLAY_FILES = 12
